@@ -131,6 +131,38 @@ def check_get_basis_aug(ctx, name, version, els, plain, nd, ns):
             ctx.violation('api.get_basis[augment]', 'count', 'element %s: %d new functions, expected %d single-primitive ones' % (z, len(new), want), replay)
 
 
+def check_get_basis_aug_flags(ctx, name, version, els, nd, ns):
+    """augmentation together with the options that change which primitives are free: the rule is applied to the basis those
+    options produce (get_basis(options) is the reference), not to the stored contractions"""
+    bse = impl.bse()
+    for flags in ({'uncontract_segmented': True}, {'uncontract_general': True}, {'remove_free_primitives': True}, {'uncontract_spdf': True, 'optimize_general': True}):
+        base = impl.call(bse.get_basis, name, version=version, elements=els, **flags)
+        r = impl.call(bse.get_basis, name, version=version, elements=els, augment_diffuse=nd, augment_steep=ns, **flags)
+        ctx.case((name, version, tuple(els), nd, ns, tuple(flags)), True, 'get_basis-augment+' + '+'.join(flags))
+        replay = {'kind': 'get_basis', 'name': name, 'version': version, 'elements': els, 'augment_diffuse': nd, 'augment_steep': ns, 'flags': list(flags)}
+        if base[0] != 'ok' or r[0] != 'ok':
+            if base[0] == 'ok':
+                ctx.dist['get_basis-refusal:' + r[1]] += 1
+            continue
+        for z, el in base[1]['elements'].items():
+            if not el.get('electron_shells'):
+                continue
+            before = oracle.element_fs(el)
+            after = oracle.element_fs(r[1]['elements'][z])
+            if not before <= after:
+                ctx.violation('api.get_basis[augment+options]', 'originals', 'element %s: a function of get_basis(%s) is lost by augmentation' % (z, flags), replay)
+                continue
+            want = 0
+            if nd:
+                want += sum(len(v) for v in expected_new(el, nd, False).values())
+            if ns:
+                want += sum(len(v) for v in expected_new(el, ns, True).values())
+            new = after - before
+            if len(new) != want or any(len(f[1]) != 1 for f in new):
+                ctx.violation('api.get_basis[augment+options]', 'count', 'element %s: %d new functions with %s, the rule applied to get_basis(%s) gives %d'
+                              % (z, len(new), flags, flags, want), replay)
+
+
 def chain_ok(ctx, name, version, b):
     """all seven months: only most-diffuse primitives removed, descending chain, refusal beyond the maximum momentum"""
     from basis_set_exchange import manip
@@ -193,6 +225,7 @@ def work_store(ctx, item):
     if p[0] == 'ok':
         for nd, ns in ((1, 0), (0, 1), (2, 1)):
             check_get_basis_aug(ctx, name, version, els, p[1], nd, ns)
+        check_get_basis_aug_flags(ctx, name, version, els, *rng.choice([(1, 0), (0, 1), (2, 1)]))
     if name.startswith('aug-'):
         chain_ok(ctx, name, version, b)
     ctx.sample({'store': label, 'nadd': [1, 2], 'months': MONTHS if name.startswith('aug-') else []})
